@@ -26,7 +26,12 @@ pub fn menu() -> Vec<Op> {
     macro_rules! opt {
         ($field:ident) => {
             for v in TEXTS {
-                m.push(op(format!("{}({:?})", stringify!($field), v), move |s| s.$field = Some(v.to_string())));
+                m.push(op(format!("{}({:?})", stringify!($field), v), move |s| {
+                    if let Some(old) = s.$field.take() {
+                        s.overwritten.push(Overwritten::Text(stringify!($field), old));
+                    }
+                    s.$field = Some(v.to_string())
+                }));
             }
         };
     }
@@ -52,13 +57,20 @@ pub fn menu() -> Vec<Op> {
     req!(arch);
     req!(summary);
     for e in [0u32, 1, u32::MAX] {
-        m.push(op(format!("epoch({})", e), move |s| s.epoch = Some(e)));
+        m.push(op(format!("epoch({})", e), move |s| {
+            if let Some(old) = s.epoch.take() {
+                s.overwritten.push(Overwritten::Epoch(old));
+            }
+            s.epoch = Some(e)
+        }));
     }
     for k in SCRIPT_KINDS {
         for (variant, flags, prog) in [("plain", None, None), ("flags", Some(5u32), None), ("prog", None, Some(vec!["/bin/sh".to_string(), "-c".to_string()])), ("flags+prog", Some(1), Some(vec!["/usr/bin/lua".to_string()]))] {
             let prog = prog.clone();
             m.push(op(format!("{}_script({})", k, variant), move |s| {
-                s.scripts.insert(k, ScriptSpec { script: format!("echo {} {}\nexit 0", k, variant), flags, prog: prog.clone() });
+                if let Some(old) = s.scripts.insert(k, ScriptSpec { script: format!("echo {} {}\nexit 0", k, variant), flags, prog: prog.clone() }) {
+                    s.overwritten.push(Overwritten::Script(k, old));
+                }
             }));
         }
     }
@@ -151,6 +163,12 @@ pub fn menu() -> Vec<Op> {
         f.content = Content::Linked(Box::new(Content::Text(33)));
         fops.push(("source behind a symbolic link".into(), f));
     }
+    {
+        let mut f = base_file();
+        f.dest = "/k/relative".into();
+        f.content = Content::Relative(Box::new(Content::Text(21)));
+        fops.push(("source named relative to the working directory".into(), f));
+    }
     for (n, mt) in [("mtime = source date", 1_600_000_000u32), ("mtime after source date", 1_700_000_000), ("mtime 0", 0)] {
         let mut f = base_file();
         f.dest = format!("/t/{}", mt);
@@ -161,7 +179,15 @@ pub fn menu() -> Vec<Op> {
         m.push(op(format!("with_file({})", d), move |s| s.files.push(f.clone())));
     }
     for c in [Comp::Gzip(6), Comp::Zstd(3), Comp::Xz(1), Comp::Default] {
-        m.push(op(format!("compression({:?})", c), move |s| s.compression = c));
+        m.push(op(format!("compression({:?})", c), move |s| {
+            if c == Comp::Default {
+                // "no call of compression() at all": nothing is overwritten, earlier calls are dropped from the sequence too
+                s.overwritten.retain(|o| !matches!(o, Overwritten::Compression(_)));
+            } else if s.compression != Comp::None && s.compression != Comp::Default {
+                s.overwritten.push(Overwritten::Compression(s.compression));
+            }
+            s.compression = c
+        }));
     }
     m.push(op("build_and_sign(ed25519)".into(), |s| s.sign = Some(Key::Ed25519)));
     m.push(op("no source_date".into(), |s| s.source_date = None));
